@@ -74,7 +74,8 @@ class C18Seq(Check):
     pid = "C18"
     exe = "driver_ser"
     builds = [("main", ("driver_ser",))]
-    timeout = 30.0
+    timeout = 8.0
+    case_timeout = 12
     rule = ("histories of 2-8 source strings (grammar text over the parsers' own function tables; each string valid, "
             "truncated, or with one byte replaced/inserted incl. NUL and bytes >= 0x80) given to ONE Parser object "
             "(convert_xor on or off per string) or ONE SbmlParser object; every string is also parsed by a fresh "
@@ -107,6 +108,16 @@ class C18Seq(Check):
         return st.one_of(hist(False), hist(False), hist(True))
 
     def judge(self, case):
+        try:
+            self._judge(case)
+        except engine.DriverCrash as e:
+            # "10**10**10": GMP aborts when a number does not fit in memory -- resource exhaustion, never reported (DESIGN 3.4)
+            if any(sig in e.stderr for sig in ("GNU MP: Cannot allocate memory", "gmp: overflow in mpz type")):
+                self.skip("resource:gmp_alloc")
+                return
+            raise
+
+    def _judge(self, case):
         sb = case["kind"] == "sbml"
         if self.tag_active("sbml_logic_nonboolean" if sb else "parse_logic_op_nonboolean"):
             for s, cx in case["items"]:
@@ -180,7 +191,7 @@ SPEC = {
                     "resource noise, counted, never reported",
                     "libFuzzer campaigns are only approximately reproducible; the saved artifact is the reproducible unit"],
     "tiers": {"quick": {"workers": 8, "runs": 12000, "empty_workers": 1, "empty_runs": 12000, "max_len": 128},
-              "thorough": {"workers": 16, "runs": 250000, "empty_workers": 2, "empty_runs": 250000, "max_len": 256}},
+              "thorough": {"workers": 16, "runs": 180000, "empty_workers": 2, "empty_runs": 180000, "max_len": 256}},
     "hy_check": C18Seq,
 }
 
